@@ -15,10 +15,10 @@ class Timeout(Exception):
 
 
 def spec_env():
-    def forall(f, lo=None, hi=None):
+    def forall(f, lo=None, hi=None, trigger=None):
         return all(f(j) for j in range(lo, hi))
 
-    def exists(f, lo=None, hi=None):
+    def exists(f, lo=None, hi=None, trigger=None):
         return any(f(j) for j in range(lo, hi))
 
     def digits(s, lo=None, hi=None, top=9):
@@ -38,6 +38,91 @@ def spec_env():
         "same": lambda a, b, lo, hi: all(a[j] == b[j] for j in range(lo, hi)),
     }
     env["succ"] = S.succ
+    def small_accessors(k, count=40, seed=7):
+        """the complete order-k accessor, the documentation example (order 2) and seeded random arc subsets."""
+        import random
+        import numpy
+        rng = random.Random(seed)
+        n = 4 ** k
+        full = numpy.array([[S.succ(v, j, k) for j in range(4)] for v in range(n)])
+        out = [full.copy()]
+        if k == 2:          # the GC-balanced graph of the library's documentation
+            gc_ok = [v for v in range(16) if sum(1 for c in S.kmer(v, 2) if c in "CG") == 1]
+            out.append(numpy.array(S.induced_accessor(gc_ok, 2)))
+        for _ in range(count):
+            a = full.copy()
+            dens = rng.choice((0.3, 0.6, 0.9))
+            for v in range(n):
+                for j in range(4):
+                    if rng.random() > dens:
+                        a[v][j] = -1
+            out.append(a)
+        return out
+
+    def walk_cases(k, count=60, seed=11):
+        """(accessor, start vertex, strand) with the strand a walk of at least k nucleotides from the start vertex."""
+        import random
+        rng = random.Random(seed)
+        out = []
+        for a in small_accessors(k, count=12, seed=seed):
+            starts = [v for v in range(len(a)) if any(a[v][j] >= 0 for j in range(4))]
+            for _ in range(count // 12 + 1):
+                if not starts:
+                    break
+                v0 = rng.choice(starts)
+                v, w = v0, ""
+                for _step in range(rng.randint(k, 6 * k + 8)):
+                    live = [j for j in range(4) if a[v][j] >= 0]
+                    if not live:
+                        break
+                    j = rng.choice(live)
+                    w += "ACGT"[j]
+                    v = int(a[v][j])
+                if len(w) >= k:
+                    out.append((a, v0, w))
+        return out
+
+    def walkv(acc, s, start, p):
+        v = start
+        for c in s[:p]:
+            j = "ACGT".find(c)
+            if v < 0 or j < 0 or acc[v][j] < 0:
+                return -1
+            v = int(acc[v][j])
+        return v
+
+    def corrupted_cases(k, seed=13):
+        """(accessor, start, corrupted strand, original walk): one substitution / insertion / deletion at a random position of a walk."""
+        import random
+        rng = random.Random(seed)
+        out = []
+        for (a, v0, w) in walk_cases(k, count=48, seed=seed):
+            if len(w) < 3 * k + 3:
+                continue
+            p = rng.randrange(len(w))
+            kind = rng.choice("SID")
+            c = rng.choice("ACGT")
+            bad = w[:p] + c + w[p + 1:] if kind == "S" else (w[:p] + c + w[p:] if kind == "I" else w[:p] + w[p + 1:])
+            out.append((a, v0, bad, w))
+            if len(w) >= 4 * k + 6:          # one deletion and, further on, one insertion: candidates assembled from fragments of different lengths
+                p1, p2 = k + 1, len(w) - k - 2
+                out.append((a, v0, w[:p1] + w[p1 + 1:p2] + c + w[p2:], w))
+        return out
+
+    env["corrupted_cases"] = corrupted_cases
+    env["set_vt"] = lambda s, n: S.vt_spec(s, n)
+    env["sorted_unique"] = lambda lst: all(a < b for a, b in zip(lst, lst[1:]))
+    env["walk_cases"] = walk_cases
+    env["walkv"] = walkv
+    env["small_accessors"] = small_accessors
+    env["lm_of"] = lambda d, acc, k, bound=None: ({int(a): [int(x) for x in b] for a, b in d.items()} ==
+                                                  {v: w for v, w in S.latter_map_spec(acc).items() if bound is None or v < bound})
+    env["forall_q"] = forall
+    env["here"] = lambda *a: True
+    env["codes"] = lambda s: [("ACGT".index(c) if c in "ACGT" and len(c) == 1 else -1) for c in s]
+    env["ascents"] = lambda s: sum(i for i in range(len(s) - 1) if "ACGT".find(s[i]) < "ACGT".find(s[i + 1]))
+    env["vt_matches"] = lambda chk, s: len(chk) >= 1 and all(c in "ACGT" for c in s) and chk == S.vt_spec(s, len(chk))
+    env["deg"] = lambda acc, v: sum(1 for j in range(4) if acc[v][j] >= 0)
     env["dnav"] = lambda s, lo=0, hi=None: S.val4(s[lo:len(s) if hi is None else hi])
     env["is_dna"] = lambda s, lo=0, hi=None: all(c in "ACGT" for c in s[lo:len(s) if hi is None else hi])
     def shuffled_row(seed, v):
@@ -60,6 +145,10 @@ def spec_env():
 NUMBERS = sorted(set(list(range(0, 131)) + [199, 200, 255, 256, 299, 300, 999, 1000, 1001, 1009, 1099, 1100, 1999, 2000, 2003, 9999, 10000,
                                             10001, 10010, 90909, 99999, 100000, 100001, 123456789, 4 ** 27 - 1, 2 ** 53 + 1,
                                             10 ** 12, 10 ** 12 - 1, 10 ** 12 + 1, 5 * 10 ** 9, 4999999999, 10 ** 30, 10 ** 30 - 1, 3 * 10 ** 20 + 7]))
+
+
+class Unsearchable(Exception):
+    """no generic family of real inputs for this parameter shape (matrices, dicts, objects): the contract must name one (concrete_inputs)."""
 
 
 def candidates(shape):
@@ -87,7 +176,14 @@ def candidates(shape):
         return [False]
     if shape == "none":
         return [None]
-    raise KeyError(shape)
+    if shape.startswith("strs[") and shape.endswith("]"):          # a list of that many short strings (motifs)
+        n = int(shape[5:-1])
+        pool = ["A", "AC", "GC", "TTA", "CGCG", "ACGTA", "N", "ac"]
+        return [list(t) for t in itertools.islice(itertools.product(pool, repeat=n), 60)]
+    if shape.startswith("list_int[") and shape.endswith("]"):
+        n = int(shape[9:-1])
+        return [list(t) for t in itertools.islice(itertools.product((0, 1, 2, 3, 7), repeat=n), 200)]
+    raise Unsearchable(shape)
 
 
 def resolve(qualname):
@@ -121,7 +217,7 @@ def check_one(fn, c, args, env, limit=5.0):
     try:
         try:
             import copy
-            res = fn(**copy.deepcopy(args))
+            res = fn(**copy.deepcopy({k_: v_ for k_, v_ in args.items() if k_ not in c.get("ghost_params", {})}))
         finally:
             signal.setitimer(signal.ITIMER_REAL, 0)
             signal.signal(signal.SIGALRM, old)
@@ -129,6 +225,8 @@ def check_one(fn, c, args, env, limit=5.0):
         if c.get("terminates_within_s"):
             return {"observed": "did not return within %.0f s" % limit, "clause": "termination"}
         return None          # slow is not wrong: inconclusive for this input
+    except (MemoryError, RecursionError):
+        return None          # resource exhaustion on an absurdly large input is outside the modelled semantics: inconclusive for this input
     except Exception as e:  # noqa
         name = type(e).__name__
         if name in c.get("raises", {}) and (c["raises"][name] is None or expect_raise == name):
@@ -137,14 +235,29 @@ def check_one(fn, c, args, env, limit=5.0):
     if expect_raise is not None:
         return {"observed": f"returned {res!r:.120}", "clause": f"raises {expect_raise} exactly when {c['raises'][expect_raise]}"}
     local["result"] = res
+    if c.get("collections"):
+        local["candidates_ok"] = lambda lst, name: all(eval(c["collections"][name], dict(local, candidate=x)) for x in lst)
     for label, txt in c.get("ensures", {}).items():
         try:
             ok = bool(eval(txt, local))
         except Exception as e:  # noqa
-            ok = False
+            continue        # a clause this evaluator cannot evaluate (ghost witness, spec function without a concrete twin) decides nothing
         if not ok:
             return {"observed": f"returned {res!r:.200}", "clause": f"ensures {label}: {txt}"}
     return None
+
+
+def jsonable_args(args):
+    import numpy
+    out = {}
+    for k_, v_ in args.items():
+        if isinstance(v_, numpy.ndarray):
+            out[k_] = v_.tolist()
+        elif isinstance(v_, dict):
+            out[k_] = {str(a): [int(x) for x in b] for a, b in v_.items()}
+        else:
+            out[k_] = v_
+    return out
 
 
 def search(req):
@@ -180,7 +293,7 @@ def search(req):
         fn = resolve(target)
     names = list(c.get("params", {}))
     pools = []
-    for n in names:
+    for n in ([] if c.get("concrete_inputs") else names):
         if n in req.get("split", {}):
             pools.append([req["split"][n]])
         elif n in c.get("candidates", {}):
@@ -189,6 +302,17 @@ def search(req):
             pools.append(candidates(c["params"][n]))
     tried = 0
     budget = req.get("budget", 30000)
+    if c.get("concrete_inputs") and "input" not in req:
+        # the contract names its own finite family of real inputs (ghost parameters included): an expression over the spec environment
+        import dsw
+        scope = dict(env)
+        scope.update({n_: getattr(dsw, n_) for n_ in dir(dsw) if not n_.startswith("_")})
+        for args in eval(c["concrete_inputs"], scope):
+            tried += 1
+            r = check_one(fn, c, args, env)
+            if r is not None:
+                return {"tried": tried, "failing": {"input": jsonable_args(args), "receiver": None, **r}}
+        return {"tried": tried, "failing": None}
     def describe(rcv):
         return None if rcv is None else {k_: getattr(rcv, k_) for k_ in ("observed_length", "max_homopolymer_runs", "gc_range", "undesired_motifs")}
 
@@ -198,6 +322,12 @@ def search(req):
         env["self"] = rcv
         return getattr(rcv, meth)
     if "input" in req:
+        import numpy
+        for n_, shape in c.get("params", {}).items():           # a replay record went through JSON: matrices and int-keyed dicts come back
+            if n_ in req["input"] and shape.startswith("mat("):
+                req["input"][n_] = numpy.array(req["input"][n_])
+            if n_ in req["input"] and shape == "dict":
+                req["input"][n_] = {int(a): list(b) for a, b in req["input"][n_].items()}
         rcv = None
         if req.get("receiver"):
             rcv = cls(**req["receiver"])
@@ -218,4 +348,8 @@ def search(req):
 
 if __name__ == "__main__":
     req = json.loads(sys.argv[1])
-    print(json.dumps(search(req), default=str))
+    try:
+        out = search(req)
+    except Unsearchable as e:
+        out = {"tried": 0, "failing": None, "note": f"no generic candidate family for a parameter of shape {e}; the contract names none (concrete_inputs)"}
+    print(json.dumps(out, default=str))
